@@ -279,7 +279,7 @@ def self_test(shape, res):
         ex = Exec(shape)
         try:
             out = ex.run(9, [0, 1])
-            img = sorted((p[-12:], sorted(d.items())) for p, d in ex.m.stores.data.items())
+            img = sorted((p.rsplit('/', 1)[-1], sorted(d.items())) for p, d in ex.m.stores.data.items())
             seen.append((out, ex.steps, ex.w.db.state.height if ex.w.db.state else None, img))
         except common.Broken:
             seen.append('diverged')
